@@ -56,6 +56,9 @@ CHECKS = {
  "C15": ("robustness fuzzing with an explicit no-abort oracle: proptest-generated texts (valid programs from four generators and ~160 hand-picked fragments under 0-3 byte-level and token-level mutations, incl. multi-byte characters, NUL, CR-LF, truncation, stripped final newline, raw high bytes) are given to the driver's own preprocess() and to the data loader, interpreter and print reader (whole and line by line) under catch_unwind in an overflow-checked build; a seeded subset and all fragments go to the CLI as raw files; 14 size/depth families with n doubling run in a child with wait4 resource accounting (deterministic output / peak-memory proportionality bounds); thorough tier adds coverage-guided libFuzzer campaigns on the four parsers",
          "exploration; 1.6*10^4 (quick) / 6*10^5 (thorough) texts x 4 parsers in-process, 1.3*10^3 / 2*10^4 CLI files, families to n=8000 / 64000; a panic, signal, exit status other than 0 (1 for unreadable files), silent exit or disproportionate output/memory is a violation; watchdog and CPU-growth only ever yield 'inconclusive'",
          "trusted: catch_unwind + panic hook, the child runner; mutated programs given to the CLI have start renamed so that they cannot begin to run (a mutated program may legitimately loop)", "3/C15"),
+ "C19": ("metamorphic / differential testing of the implementation against itself under different histories: repeated CLI runs of generated valid and multiply-invalid programs must be byte-identical; proptest-generated interleavings of two instruction streams on two machines sharing one Interpreter object versus each stream alone on fresh objects; fresh versus used parser objects (all four parser types, histories with errors); new-machine state checked before and after; 16 concurrent threads versus sequential",
+         "exploration; 4*10^2 (quick) / 5*10^3 (thorough) programs x 5 processes, 5*10^3 / 10^5 interleavings (switch points also inside REP iterations), 2.4*10^3 / 4*10^4 parser histories; registers, whole memory, call stack, per-instruction outcomes, emitted lists and maps compared",
+         "trusted: none beyond the harness plumbing (the oracle is equality of two runs of the code under test); schedules of real threads are executed, not enumerated", "3/C19"),
 }
 
 REASON_WIP = "check not built yet in this revision of /verif (work in progress; see DESIGN.md section 7 for the order of work)"
